@@ -34,6 +34,14 @@ pub enum Expect {
     /// The frame is not a JSON object; zlink may either reject it or decode it the way serde
     /// decodes that document (serde lets structs decode from arrays). Only used for non-objects.
     DecodeErrOr(Outcome),
+    /// A reply frame that is not a JSON object (an array, a scalar): not a Varlink message at all.
+    /// zlink's three-way decode runs through serde's buffered content, where adjacently tagged
+    /// enums accept the sequence form `[tag, content]` with the variant *index* as tag, so
+    /// `[0,[]]` comes out as the first variant of the caller's error enum (serde_json applied to the
+    /// frame directly does not accept an integer tag, so there is no independent reference for
+    /// that reading). Admitted: a decode error, the success serde reads directly (if any), or a
+    /// method / service error.
+    NonObjectReply(Option<Outcome>),
 }
 
 impl Expect {
@@ -41,6 +49,9 @@ impl Expect {
         match self {
             Expect::Exactly(o) => o == got,
             Expect::DecodeErrOr(o) => got == o || *got == Outcome::DecodeErr,
+            Expect::NonObjectReply(o) => {
+                *got == Outcome::DecodeErr || o.as_ref() == Some(got) || matches!(got, Outcome::Msg(m) if m.starts_with("method-error") || m.starts_with("service-error"))
+            }
         }
     }
     pub fn is_decodable(&self) -> bool {
@@ -133,11 +144,8 @@ where
         return Expect::Exactly(Outcome::DecodeErr);
     };
     let Some(obj) = doc.as_object() else {
-        // Non-object documents: see `Expect::DecodeErrOr`.
-        return match serde_json::from_slice::<Reply<P>>(frame) {
-            Ok(rep) => Expect::DecodeErrOr(Outcome::Msg(format!("success {rep:?}"))),
-            Err(_) => Expect::Exactly(Outcome::DecodeErr),
-        };
+        // Non-object documents: see `Expect::NonObjectReply`.
+        return Expect::NonObjectReply(serde_json::from_slice::<Reply<P>>(frame).ok().map(|rep| Outcome::Msg(format!("success {rep:?}"))));
     };
     if obj.contains_key("error") {
         if let Ok(e) = serde_json::from_slice::<varlink_service::Error>(frame) {
